@@ -40,8 +40,8 @@ fn conc_l(x: u128) -> u128 {
 fn conc_l_inv(x: u128) -> u128 {
     pack(&r::l_inv(&unpack(x)))
 }
-uf_bij!(uf_s, u128, [B0 B1 B2], conc_s, conc_s_inv);
-uf_bij!(uf_l, u128, [B0 B1 B2], conc_l, conc_l_inv);
+cuf_bij!(uf_s, vuf_kuznyechik_kz_s, vuf_kuznyechik_kz_si, u128, conc_s, conc_s_inv);
+cuf_bij!(uf_l, vuf_kuznyechik_kz_l, vuf_kuznyechik_kz_li, u128, conc_l, conc_l_inv);
 
 pub fn us(a: &B16) -> B16 {
     unpack(uf_s::fwd(pack(a)))
@@ -308,14 +308,14 @@ fn lin_script(inp: &[u8], inv: bool) -> Option<bool> {
     Some(fz == xor16(&fu, &fv))
 }
 
-//@ harness name=kuz_lin_l prop=C07 tier=quick bits=256 est=300 variants=kuznyechik desc="L (oracle only, proof script): L(u ^ v) == L(u) ^ L(v) for all 2^256 (u, v): 16 R steps x 16 partial sums of l, each check a small XOR re-association with the earlier checks as hypotheses"
+//@ harness name=kuz_lin_l prop=C07 tier=thorough bits=256 est=300 variants=kuznyechik desc="L (oracle only, proof script): L(u ^ v) == L(u) ^ L(v) for all 2^256 (u, v): 16 R steps x 16 partial sums of l, each check a small XOR re-association with the earlier checks as hypotheses"
 verif_harness! {
     name: kuz_lin_l,
     bytes: 32,
     unwind: 20,
     prop: |inp| { lin_script(inp, false) }
 }
-//@ harness name=kuz_lin_linv prop=C07 tier=quick bits=256 est=300 variants=kuznyechik desc="L (oracle only, proof script): L^-1(u ^ v) == L^-1(u) ^ L^-1(v) for all 2^256 (u, v) -- the lemma whose instances the decryption harnesses of the table back ends assume"
+//@ harness name=kuz_lin_linv prop=C07 tier=thorough bits=256 est=300 variants=kuznyechik desc="L (oracle only, proof script): L^-1(u ^ v) == L^-1(u) ^ L^-1(v) for all 2^256 (u, v) -- the lemma whose instances the decryption harnesses of the table back ends assume"
 verif_harness! {
     name: kuz_lin_linv,
     bytes: 32,
@@ -323,7 +323,7 @@ verif_harness! {
     prop: |inp| { lin_script(inp, true) }
 }
 
-//@ harness name=kuz_l_inverse prop=C07,C01 tier=quick bits=128 est=200 variants=kuznyechik desc="L (oracle only, stepwise): R^-1(R(a)) == a and R(R^-1(a)) == a along the 16 steps, hence L^-1(L(x)) == x and L(L^-1(x)) == x for all 2^128 x (justifies L / L^-1 as an uninterpreted inverse pair)"
+//@ harness name=kuz_l_inverse prop=C07,C01 tier=thorough bits=128 est=200 variants=kuznyechik desc="L (oracle only, stepwise): R^-1(R(a)) == a and R(R^-1(a)) == a along the 16 steps, hence L^-1(L(x)) == x and L(L^-1(x)) == x for all 2^128 x (justifies L / L^-1 as an uninterpreted inverse pair)"
 verif_harness! {
     name: kuz_l_inverse,
     bytes: 16,
@@ -371,7 +371,7 @@ verif_harness! {
     }
 }
 
-//@ harness name=kuz_oracle_roundtrip prop=C01 tier=quick bits=1408 est=60 variants=kuznyechik desc="W (oracle only): D(E(b)) == b and E(D(b)) == b for arbitrary round keys and all blocks, S and L uninterpreted inverse pairs (with C07: enc == E and dec == D on every back end, this is the round trip of every back end)"
+//@ harness name=kuz_oracle_roundtrip prop=C01 tier=thorough bits=1408 est=60 variants=kuznyechik desc="W (oracle only): D(E(b)) == b and E(D(b)) == b for arbitrary round keys and all blocks, S and L uninterpreted inverse pairs (with C07: enc == E and dec == D on every back end, this is the round trip of every back end)"
 verif_harness! {
     name: kuz_oracle_roundtrip,
     bytes: 160 + 16,
